@@ -1,6 +1,8 @@
 """C19 - estimator life cycle (D-LIFE)."""
 from __future__ import annotations
 
+import ast
+
 from ..lifecycle import (FIT_METHODS, PREDICT_METHODS, config_attrs, estimator_classes, existence_tests, self_stores,
                          unpicklable)
 from ..terms import FALSE, NONE, TRUE, T, const, const_value, contains, glob, mk, show, subterms
@@ -87,6 +89,61 @@ def lifecycle_of(ctx, classes, alias: dict):
         ctx.rule_alias = None
 
 
+MUTATORS = ("append", "extend", "update", "add", "insert", "pop", "popitem", "clear", "setdefault", "remove", "discard", "sort",
+            "reverse")
+
+
+def _leaves(t: T):
+    """the alternatives of a value through ite / assume / read-over-write chains"""
+    out, stack, seen = [], [t], set()
+    while stack:
+        x = stack.pop()
+        if x.uid in seen:
+            continue
+        seen.add(x.uid)
+        if x.op == "ite":
+            stack.extend([x.args[1], x.args[2]])
+        elif x.op == "assume":
+            stack.append(x.args[1])
+        elif x.op in ("upd", "listappend"):
+            stack.append(x.args[0])
+        elif x.op == "loopvar" and len(x.args) >= 3 and isinstance(x.args[2], T):
+            stack.append(x.args[2])  # value on loop entry
+        else:
+            out.append(x)
+    return out
+
+
+def _prefit_container(holder: T, self_term: T, attr: str) -> bool:
+    raw = mk("attr", self_term, attr)
+    return any(x is raw for x in _leaves(holder))
+
+
+def _inplace_mutations(r):
+    """(event, attribute, container term) for `self.a[k] = v`, `d = self.a; d[k] = v`, `self.a.append(v)` ..."""
+    out = []
+    st = r.self_term
+    if st is None:
+        return out
+    for e in r.events:
+        if e.kind == "store" and e.data.get("tkind") == "sub":
+            holder = e.data["obj"]
+        elif e.kind == "call" and not e.data.get("resolved") and e.data["fterm"].op == "attr" and e.data["fterm"].args[1] in MUTATORS:
+            holder = e.data["fterm"].args[0]
+        else:
+            continue
+        for x in _leaves(holder):
+            if x.op == "attr" and x.args[0] is st:
+                out.append((e, x.args[1], holder))
+                break
+        else:
+            b = e.data.get("base_node")
+            if isinstance(b, ast.Attribute) and isinstance(b.value, ast.Name) and e.state is not None \
+                    and e.state.loc.get(b.value.id) is st:
+                out.append((e, b.attr, holder))
+    return out
+
+
 def _note_or_ob(ctx, is_subject, rule, fq, node, ok, text, construct):
     if is_subject or ok:
         ctx.ob(rule, fq, node, ok, text, construct=construct)
@@ -169,6 +226,25 @@ def _fit_rules(ctx, A, cls, m, fi, r, params, cfg, is_subject):
                     f"{cname}.fit reads '{a}' before any write in this fit: only an earlier fit can have set it, so the "
                     "result of fit depends on the call history (e.g. records accumulate across fits)",
                     f"read of {a} before write in fit")
+    # R19.3 in-place mutation of a container that this fit did not create
+    n_mut = 0
+    seen_m = set()
+    for e, a, holder in _inplace_mutations(r):
+        n_mut += 1
+        if a in params or (a, e.func) in seen_m:
+            continue  # constructor parameters: R19.1
+        pre = _prefit_container(holder, r.self_term, a)
+        if not pre:
+            continue
+        if any(contains(x, lambda s: s.op == "attr" and s.args[1] == "warm_start") for x in e.pc):
+            continue
+        seen_m.add((a, e.func))
+        _note_or_ob(ctx, is_subject, "R19.3", e.func, e.node, False,
+                    f"{cname}.fit mutates self.{a} in place but has not assigned it in this fit: the container survives "
+                    "from the constructor or an earlier fit, so entries accumulate across fits",
+                    f"in-place mutation of pre-fit self.{a}")
+    ctx.ob("R19.3", fi.fq, None, True, f"{cname}.fit: {n_mut} in-place container mutations inspected; each mutated "
+           "container was created in this fit", construct=f"{cname}.fit containers are fresh", nontrivial=bool(n_mut))
     ctx.ob("R19.3", fi.fq, None, True, f"{cname}.fit: {len(tests)} existence tests and {len(reads)} reads of non-"
            "configuration state inspected", construct=f"{cname}.fit history scan", nontrivial=bool(tests or reads))
     # R19.6 un-copied fit of a constructor-parameter estimator
@@ -279,6 +355,23 @@ def _latches(ctx):
     ctx.floor("R19.5", "method calls on constructor-parameter objects from fit", n_calls, 2)
 
 
+def _event_terms(e):
+    out = []
+
+    def rec(v):
+        if isinstance(v, T):
+            out.append(v)
+        elif isinstance(v, (tuple, list)):
+            for y in v:
+                rec(y)
+        elif isinstance(v, dict):
+            for y in v.values():
+                rec(y)
+    for k, v in e.data.items():
+        rec(v)
+    return out
+
+
 def _reload_completeness(ctx):
     prog = ctx.prog
     A = Analysis(ctx, max_depth=5)
@@ -287,6 +380,16 @@ def _reload_completeness(ctx):
                                                                     for m in prog.classes[k].methods}
                 and c.split(":")[1] not in ("Moment", "ClassificationMoment", "LossMoment")]
     ctx.floor("R19.5", "concrete Moment classes", len(concrete), 9)
+    # attributes that the reduction algorithms read from a moment object (anything that is not their own self)
+    ext_reads = set()
+    for sub in (M_GS + ":GridSearch", M_EG + ":ExponentiatedGradient"):
+        rr = A.run(sub + ".fit", cls_ctx=sub)
+        for e in rr.events:
+            for v in _event_terms(e):
+                for x in subterms(v):
+                    if x.op == "attr" and x.args[0] is not rr.self_term and isinstance(x.args[1], str):
+                        ext_reads.add(x.args[1])
+    ctx.floor("R19.5", "attribute names the reductions read from other objects", len(ext_reads), 5)
     for cls in sorted(concrete):
         ld = prog.lookup_method(cls, "load_data")
         r = A.run(ld.fq, cls_ctx=cls)
@@ -305,6 +408,16 @@ def _reload_completeness(ctx):
                 written.add(attr)
         cfg = config_attrs(prog, A.ev, cls)
         missing = {}
+        stored_any = {a for e, a, k in self_stores(r)}
+        for a in sorted((stored_any & ext_reads) - written - cfg):
+            missing.setdefault(a, "the reduction algorithms (read from the constraints object)")
+        for e, t, attr, how in existence_tests(r):
+            infl = [b for b in r.events if b.kind == "branch" and b.data.get("folded") is None and b.seq > e.seq
+                    and any(x is t for x in subterms(b.data["cond"]))]
+            ctx.ob("R19.5", e.func, e.node, not infl,
+                   f"{cls.split(':')[1]}.load_data tests for state of an earlier load ({how} {attr!r}) and branches on it: "
+                   "reloading does not behave like loading into a fresh object" if infl else
+                   f"{how} {attr!r} in load_data does not influence a branch", construct=f"{how} {attr} in load_data")
         for q in MOMENT_QUERIES:
             qf = prog.lookup_method(cls, q)
             if qf is None:
